@@ -9,7 +9,7 @@ from specs.inotify_emitter import World, QueueEvents, FILE
 from specs import inotify_table as T
 
 PROP = "C03"
-GROUNDABLE = False
+GROUNDABLE = True
 BATTERY = "c03_battery.py"
 
 
